@@ -201,6 +201,7 @@ def run(case: dict, ctx) -> dict:
             a = t * cov + rng.randrange(0, cov)
             reqs.append((a, min(rng.randrange(cov // 2, 2 * cov + 2), 3 << 20)))
     res["cnt"]["l2_table_structured_cases"] = int(tabled)
+    fault_retry_reads(q, model, reqs, rng, res, MECH, n=3)  # cold caches
     continuation_reads(q, model, reqs, rng, res, MECH)
     fault_retry_reads(q, model, reqs, rng, res, MECH)
     compare_reads(q, model, reqs, res, MECH, byte_cap=(32 << 20) if not big else (64 << 20))
